@@ -115,28 +115,24 @@ func numBig(tier string) int {
 }
 
 func genBig(r *RNG, j int) KeySet {
-	if j%4 == 3 || j == 0 {
-		// thousands of 257-bit nodes
-		a := r.Range(11, 16)
-		d := 4
-		return KeySet{"big:dense-alpha-d4", genDenseAlpha(r, a, d, r.Intn(50))}
-	}
-	switch j % 3 {
-	case 0:
+	switch j % 4 {
+	case 0: // > 65535 nodes, 257-bit nodes two levels deep
 		var k []string
 		n := r.Range(66000, 80000)
 		for i := 0; i < n; i++ {
 			k = append(k, string(r.Bytes(r.Range(4, 9))))
 		}
 		return KeySet{"big:uniform-70k", sortUniq(k)}
-	case 1:
-		switch r.Intn(3) {
+	case 1: // thousands of 257-bit nodes
+		return KeySet{"big:dense-alpha-d4", genDenseAlpha(r, r.Range(11, 16), 4, r.Intn(50))}
+	case 2: // short-node tables of 8..10 bits
+		switch (j / 4) % 3 {
 		case 0:
-			return KeySet{"big:repeats-60x2400", genRepeats(r, 2400, 60, 3)}
+			return KeySet{"big:repeats-120x48000", genRepeats(r, 48000, 120, 3)}
 		case 1:
 			return KeySet{"big:repeats-84x25000", genRepeats(r, 25000, 84, 3)}
 		}
-		return KeySet{"big:repeats-120x48000", genRepeats(r, 48000, 120, 3)}
+		return KeySet{"big:repeats-60x2400", genRepeats(r, 2400, 60, 3)}
 	}
 	return KeySet{"big:nibble-dense-30k", genNibbleDense(r, 30000)}
 }
@@ -186,7 +182,7 @@ func (p *lprofile) caseAt(ctx *Ctx, idx int) (*LCase, *ExhSpace, [][]int) {
 		}
 		ks := genBig(r, idx)
 		kind := p.pickKind(r)
-		if idx%3 == 2 && p.kinds == nil {
+		if idx%4 == 3 && p.kinds == nil {
 			kind = "str16"
 		}
 		return &LCase{Family: ks.Family, Keys: ks.Keys, Vals: genVals(r, kind, len(ks.Keys), []int{0, 1, 4}[r.Intn(3)]), QMax: p.qmax, R: r}, nil, nil
